@@ -3,6 +3,12 @@ import Pyunicorn.Lemmas.NsiDist
 import Pyunicorn.Lemmas.NsiBetw
 import Pyunicorn.Lemmas.NsiBfs
 import Pyunicorn.Lemmas.NsiRw
+import Pyunicorn.Lemmas.NsiEig
+import Pyunicorn.Lemmas.NsiArenasReg
+import Pyunicorn.Lemmas.NsiComp
+import Pyunicorn.Lemmas.NsiCompInv
+import Pyunicorn.Lemmas.NsiCompArenas
+import Pyunicorn.Lemmas.NsiCompConn
 import Pyunicorn.Model.NsiMeasures
 /-!
 # C02 — Node-splitting invariance of all n.s.i. measures
@@ -506,6 +512,496 @@ theorem nsi_degree_histogram_bins_split (G : Gr) (v : Nat) (p : Rat) (hv : v < G
 example : spreadMoment pathGd 2 0 = spreadMoment (split pathGd 1 (1/4)) 2 0 ∧ spreadMoment pathGd 2 0 = 75 ∧
     histNBins pathGd = 3 ∧ histLowerBounds (split pathGd 1 (1/4)) = [3, 4, 5] := by
   decide +kernel
+
+
+
+/-! ### round 5: the absorbing-walk systems of `nsi_arenas_betweenness` are regular
+
+`ArenasRegular` — a hypothesis of the three theorems above — is a theorem on connected networks
+(maximum principle along walks, `Lemmas/NsiArenasReg.lean`). -/
+
+/-- `1 − sp_Pi` has a trivial kernel: connected network, positive node weights, any stopping rule
+with `σ(i, i) = 1` and `0 ≤ σ(i, ·) ≤ 1` on `N⁺(i)` -/
+theorem arenas_systems_regular (G : Gr) (hw : ∀ k, k < G.n → 0 < G.w k) (hconn : Connected G)
+    (sigma : Nat → Nat → Rat) (i : Nat) (hi : i < G.n) (hσi : sigma i i = 1)
+    (hσ : ∀ r, r < G.n → aplus G i r = 1 → 0 ≤ sigma i r ∧ sigma i r ≤ 1) :
+    ArenasRegular G sigma i :=
+  arenas_regular G hw hconn sigma i hi hσi hσ
+
+/-- `nsi_twinness` takes values in `[0, 1]` and is 1 on the diagonal of an undirected network -/
+theorem nsi_twinness_range (G : Gr) (hw : ∀ k, k < G.n → 0 < G.w k)
+    (hsym : ∀ i j, G.adj i j = G.adj j i) (a b : Nat) (ha : a < G.n) :
+    0 ≤ eval G [a, b] M.nsiTwinness ∧ eval G [a, b] M.nsiTwinness ≤ 1 ∧
+      eval G [a, a] M.nsiTwinness = 1 :=
+  ⟨(twinness_bounds G hw a b ha).1, (twinness_bounds G hw a b ha).2,
+    twinness_diag G hw (aplus_symm G hsym) a ha⟩
+
+/-- **`nsi_arenas_betweenness(stopping_mode="neighbors")` is node-splitting invariant on every
+connected loop-free network** — no regularity hypothesis: any solutions `V i` / `V' i` of the
+systems of the network and of its split copy -/
+theorem nsi_arenas_betweenness_neighbors_split_connected (G : Gr) (v : Nat) (p : Rat)
+    (hv : v < G.n) (hp0 : 0 < p) (hp1 : p < 1) (hloop : ∀ i, G.adj i i = false)
+    (hw : ∀ k, k < G.n → 0 < G.w k) (hconn : Connected G) (V V' : Nat → Nat → Nat → Rat)
+    (hV : ∀ i, i < G.n → ArenasSolves G (fun _ _ => 1) i (V i))
+    (hV' : ∀ i, i < G.n + 1 → ArenasSolves (split G v p) (fun _ _ => 1) i (V' i))
+    (excl : Bool) (j : Nat) (hj : j < G.n + 1) :
+    arenasB (split G v p) V' excl j = arenasB G V excl (collapse G.n v j) :=
+  nsi_arenas_betweenness_neighbors_split G v p hv hp0 hp1 hw V V' hV hV'
+    (fun i hi => arenas_regular (split G v p) (split_weights_pos G v p hv hp0 hp1 hw)
+      (split_connected G v p hv hloop hconn) _ i hi rfl
+      (fun _ _ _ => ⟨by norm_num, by norm_num⟩)) excl j hj
+
+/-- **`nsi_arenas_betweenness(stopping_mode="twinness")` is node-splitting invariant on every
+connected undirected loop-free network** — no regularity hypothesis -/
+theorem nsi_arenas_betweenness_twinness_split_connected (G : Gr) (v : Nat) (p : Rat)
+    (hv : v < G.n) (hp0 : 0 < p) (hp1 : p < 1) (hloop : ∀ i, G.adj i i = false)
+    (hsym : ∀ i j, G.adj i j = G.adj j i)
+    (hw : ∀ k, k < G.n → 0 < G.w k) (hconn : Connected G) (V V' : Nat → Nat → Nat → Rat)
+    (hV : ∀ i, i < G.n → ArenasSolves G (fun a b => eval G [a, b] M.nsiTwinness) i (V i))
+    (hV' : ∀ i, i < G.n + 1 →
+      ArenasSolves (split G v p) (fun a b => eval (split G v p) [a, b] M.nsiTwinness) i (V' i))
+    (excl : Bool) (j : Nat) (hj : j < G.n + 1) :
+    arenasB (split G v p) V' excl j = arenasB G V excl (collapse G.n v j) := by
+  have hw' := split_weights_pos G v p hv hp0 hp1 hw
+  have hsym' : ∀ a b, aplus (split G v p) a b = aplus (split G v p) b a := fun a b => by
+    rw [aplus_split G v p hv, aplus_split G v p hv, aplus_symm G hsym]
+  exact nsi_arenas_betweenness_twinness_split G v p hv hp0 hp1 hw V V' hV hV'
+    (fun i hi => arenas_regular (split G v p) hw' (split_connected G v p hv hloop hconn) _ i hi
+      (twinness_diag (split G v p) hw' hsym' i hi)
+      (fun r _ _ => twinness_bounds (split G v p) hw' i r hi)) excl j hj
+
+
+/-! ### round 5: the per-component wrapper of the random-walk betweennesses
+
+`nsi_newman_betweenness` / `nsi_arenas_betweenness` loop over `graph.connected_components()`, build
+`subnet = Network(components.subgraph(c), node_weights[nodes])` and copy the values back
+(`Model/NsiComp.lean`).  Under a split the component of the split node gains the twin as its last
+node and its sub-network **is** the split of the old sub-network; every other component is handed
+over unchanged.  So the theorems for connected networks above apply to what the wrapper computes. -/
+
+/-- the components of the split graph are the preimages of the components of the graph -/
+theorem components_of_split (G : Gr) (v : Nat) (p : Rat) (hv : v < G.n)
+    (hloop : ∀ i, G.adj i i = false) (a : Nat) (ha : a < G.n + 1) :
+    compNodes (split G v p) a
+      = compNodes G (collapse G.n v a)
+        ++ (if (bfsDist G (collapse G.n v a) v).isSome then [G.n] else []) :=
+  compNodes_split G v p hv hloop a ha
+
+/-- **the sub-network the wrapper builds for the component of the split node is the split of the
+sub-network it builds on the original network** (node count, every node weight, every link; the
+split node sits at its position `idxOf v` in the component, the twin is the last node) -/
+theorem subnetwork_of_split (G : Gr) (v : Nat) (p : Rat) (hv : v < G.n)
+    (hloop : ∀ i, G.adj i i = false) (a : Nat) (ha : a < G.n + 1)
+    (hr : (bfsDist G (collapse G.n v a) v).isSome = true) :
+    let nodes := compNodes G (collapse G.n v a)
+    let H' := subGr (split G v p) (compNodes (split G v p) a)
+    let H := split (subGr G nodes) (nodes.idxOf v) p
+    H'.n = H.n ∧ (∀ i, i < H.n → H'.w i = H.w i) ∧ (∀ i j, i < H.n → j < H.n → H'.adj i j = H.adj i j) := by
+  intro nodes H' H
+  have hc : compNodes (split G v p) a = nodes ++ [G.n] := by
+    rw [compNodes_split G v p hv hloop a ha, hr]; rfl
+  have hlt : ∀ x ∈ nodes, x < G.n := fun x hx => List.mem_range.mp (List.mem_filter.mp hx).1
+  have hnd : nodes.Nodup := List.Nodup.filter _ List.nodup_range
+  have hvm : v ∈ nodes := List.mem_filter.mpr ⟨List.mem_range.mpr hv, hr⟩
+  have hn : H.n = nodes.length + 1 := rfl
+  refine ⟨?_, ?_, ?_⟩
+  · show (subGr (split G v p) (compNodes (split G v p) a)).n = _
+    rw [hc]; exact subGr_split_n G v p nodes
+  · intro i hi
+    show (subGr (split G v p) (compNodes (split G v p) a)).w i = _
+    rw [hc]; exact subGr_split_w G v p nodes hlt hnd hvm i (hn ▸ hi)
+  · intro i j hi hj
+    show (subGr (split G v p) (compNodes (split G v p) a)).adj i j = _
+    rw [hc]; exact subGr_split_adj G v p nodes hlt hnd hvm i j (hn ▸ hi) (hn ▸ hj)
+
+/-- a component that does not contain the split node: same node list, same sub-network -/
+theorem subnetwork_of_other_component (G : Gr) (v : Nat) (p : Rat) (hv : v < G.n)
+    (hloop : ∀ i, G.adj i i = false) (a : Nat) (ha : a < G.n + 1)
+    (hr : (bfsDist G (collapse G.n v a) v).isSome = false) :
+    let nodes := compNodes G (collapse G.n v a)
+    compNodes (split G v p) a = nodes ∧
+    (subGr (split G v p) nodes).n = (subGr G nodes).n ∧
+    ∀ i j, i < nodes.length → j < nodes.length →
+      (subGr (split G v p) nodes).w i = (subGr G nodes).w i ∧
+      (subGr (split G v p) nodes).adj i j = (subGr G nodes).adj i j := by
+  intro nodes
+  have hlt : ∀ x ∈ nodes, x < G.n := fun x hx => List.mem_range.mp (List.mem_filter.mp hx).1
+  have hvm : v ∉ nodes := fun h => by
+    have := (List.mem_filter.mp h).2
+    rw [hr] at this; exact absurd this (by simp)
+  refine ⟨?_, rfl, fun i j hi hj => ?_⟩
+  · rw [compNodes_split G v p hv hloop a ha, hr]; simp [nodes]
+  · exact (subGr_split_other G v p nodes hlt hvm i j hi hj).2
+
+/-- non-vacuity: links 0–1, 2–3 | node 4 alone; splitting node 2 appends the twin (5) to its
+component; the other components are untouched -/
+def compG : Gr :=
+  { n := 5, adj := fun i j => (i, j) ∈ [(0, 1), (1, 0), (2, 3), (3, 2)],
+    w := fun k => [1, 2, 3, 1, 2].getD k 0, la := fun _ _ _ => 0, grp := fun _ _ => false,
+    dist := fun _ _ => none }
+
+example : compList compG = [[0, 1], [2, 3], [4]] ∧
+    compList (split compG 2 (1/4)) = [[0, 1], [2, 3, 5], [4]] ∧
+    compList (split compG 4 (1/4)) = [[0, 1], [2, 3], [4, 5]] := by
+  decide +kernel
+
+
+/-- **Node-splitting invariance of `nsi_newman_betweenness` as the wrapper computes it, on every
+loop-free network with positive node weights — connected or not** (both values of
+`add_local_ends`).  `newmanAt G Tof ends a` is what the component loop stores at node `a`: the
+isolated-node value (`0`, or `w_a²` with `add_local_ends`), or the measure of the sub-network of
+`a`'s component at `a`'s position in it, `Tof H` standing for `sp_M_inv` of the sub-network `H`
+(a function of the network inside its node range — `hTcongr` — that does what the inverse is used
+for on the two components concerned).  Covers the three cases of the loop: a component without the
+split node (handed over unchanged), the component of the split node (its sub-network is the split
+of the old sub-network: `nsi_newman_betweenness_split`), and an **isolated node that becomes a
+pair of twins** (the code path changes from the shortcut to the full computation on a 2-node
+network: no walk is counted and the local-ends term is `(2W − k*) k* = w_v²`). -/
+theorem nsi_newman_betweenness_wrapper_split (G : Gr) (v : Nat) (p : Rat) (hv : v < G.n)
+    (hp0 : 0 < p) (hp1 : p < 1) (hw : ∀ k, k < G.n → 0 < G.w k) (hloop : ∀ i, G.adj i i = false)
+    (Tof : Gr → Nat → Nat → Rat)
+    (hTcongr : ∀ H H', RangeEq H H' → ∀ i j, i < H.n → j < H.n → Tof H i j = Tof H' i j)
+    (ends : Bool) (a : Nat) (ha : a < G.n + 1)
+    (hL : SolvesL (subGr G (compNodes G (collapse G.n v a))).n
+      (nsiQ (subGr G (compNodes G (collapse G.n v a))))
+      (newmanM (subGr G (compNodes G (collapse G.n v a))))
+      (Tof (subGr G (compNodes G (collapse G.n v a)))))
+    (hR : SolvesR (subGr (split G v p) (compNodes (split G v p) a)).n
+      (newmanM (subGr (split G v p) (compNodes (split G v p) a)))
+      (Tof (subGr (split G v p) (compNodes (split G v p) a)))) :
+    newmanAt (split G v p) Tof ends a = newmanAt G Tof ends (collapse G.n v a) :=
+  newmanAt_split G v p hv hp0 hp1 hw hloop Tof hTcongr ends a ha hL hR
+
+/-- the Newman-type betweenness reads only the node range, the links and weights inside it and
+the entries of `sp_M_inv` inside it -/
+theorem nsi_newman_reads_range_only (G H : Gr) (h : RangeEq G H) (T T' : Nat → Nat → Rat)
+    (hT : ∀ i j, i < G.n → j < G.n → T i j = T' i j) (ends : Bool) (i : Nat) (hi : i < G.n) :
+    nsiNewman G T ends i = nsiNewman H T' ends i :=
+  nsiNewman_congr h T T' hT ends i hi
+
+/-- a complete network (every pair linked, e.g. the two twins of an isolated node): no walk is
+counted; with `add_local_ends` every node has `W²` -/
+theorem nsi_newman_complete_network (K : Gr) (hall : ∀ i j, i < K.n → j < K.n → aplus K i j = 1)
+    (T : Nat → Nat → Rat) (ends : Bool) (i : Nat) (hi : i < K.n) :
+    nsiNewman K T ends i = if ends then totalW K * totalW K else 0 :=
+  nsiNewman_complete K hall T ends i hi
+
+example : newmanWrapped compG true = some [9, 9, 16, 16, 4] ∧
+    newmanWrapped (split compG 2 (1/4)) true = some [9, 9, 16, 16, 4, 16] ∧
+    newmanWrapped (split compG 4 (1/4)) true = some [9, 9, 16, 16, 4, 4] ∧
+    newmanWrapped (split compG 4 (1/4)) false = some [0, 0, 0, 0, 0, 0] := by
+  decide +kernel
+
+
+/-- **Node-splitting invariance of `nsi_arenas_betweenness` as the wrapper computes it, on every
+loop-free network with positive node weights — connected or not**, both values of
+`exclude_neighbors`, for a stopping rule `sigOf` given as a function of the sub-network that reads
+only its node range, pulls back under a split and is 1 on a complete network.  `Vof H i` stands for
+`splu(1 − sp_Pi).solve(sp_Pi)` on the sub-network `H` (any solutions; the systems of the new
+component regular — `arenas_systems_regular` gives that when the stopping rule is in `[0,1]` with
+unit diagonal, since a component is connected).  The three cases of the loop as for the
+Newman-type measure; an isolated node becomes a pair of twins on which the walk stops at once
+(value 0 on both sides). -/
+theorem nsi_arenas_betweenness_wrapper_split (G : Gr) (v : Nat) (p : Rat) (hv : v < G.n)
+    (hp0 : 0 < p) (hp1 : p < 1) (hw : ∀ k, k < G.n → 0 < G.w k) (hloop : ∀ i, G.adj i i = false)
+    (sigOf : Gr → Nat → Nat → Rat) (Vof : Gr → Nat → Nat → Nat → Rat)
+    (hsigcongr : ∀ H H', RangeEq H H' → ∀ a b, a < H.n → b < H.n → sigOf H a b = sigOf H' a b)
+    (hsigsplit : ∀ (H : Gr) (k : Nat), k < H.n → ∀ a b,
+      sigOf (split H k p) a b = sigOf H (collapse H.n k a) (collapse H.n k b))
+    (hsigcomplete : ∀ K : Gr, (∀ k, k < K.n → 0 < K.w k) →
+      (∀ i j, i < K.n → j < K.n → aplus K i j = 1) →
+      ∀ i j, i < K.n → j < K.n → sigOf K i j = 1)
+    (hVcongr : ∀ H H', RangeEq H H' → ∀ i s j, i < H.n → s < H.n → j < H.n →
+      Vof H i s j = Vof H' i s j)
+    (excl : Bool) (a : Nat) (ha : a < G.n + 1)
+    (hV : ∀ i, i < (subGr G (compNodes G (collapse G.n v a))).n →
+      ArenasSolves (subGr G (compNodes G (collapse G.n v a)))
+        (sigOf (subGr G (compNodes G (collapse G.n v a)))) i
+        (Vof (subGr G (compNodes G (collapse G.n v a))) i))
+    (hV' : ∀ i, i < (subGr (split G v p) (compNodes (split G v p) a)).n →
+      ArenasSolves (subGr (split G v p) (compNodes (split G v p) a))
+        (sigOf (subGr (split G v p) (compNodes (split G v p) a))) i
+        (Vof (subGr (split G v p) (compNodes (split G v p) a)) i))
+    (hreg : ∀ i, i < (subGr (split G v p) (compNodes (split G v p) a)).n →
+      ArenasRegular (subGr (split G v p) (compNodes (split G v p) a))
+        (sigOf (subGr (split G v p) (compNodes (split G v p) a))) i) :
+    arenasAt (split G v p) sigOf Vof excl a = arenasAt G sigOf Vof excl (collapse G.n v a) :=
+  arenasAt_split G v p hv hp0 hp1 hw hloop sigOf Vof hsigcongr hsigsplit hsigcomplete hVcongr excl
+    a ha hV hV' hreg
+
+/-- both stopping rules of the library satisfy the three conditions on `sigOf`:
+`stopping_mode="neighbors"` (`1`) trivially, `"twinness"` (`subnet.nsi_twinness()`) by
+`eval_split`, range-only evaluation and `twinness = 1` on a complete network -/
+theorem stopping_rules_admissible (p : Rat) :
+    (let sigOf : Gr → Nat → Nat → Rat := fun H a b => eval H [a, b] M.nsiTwinness
+     (∀ H H', RangeEq H H' → ∀ a b, a < H.n → b < H.n → sigOf H a b = sigOf H' a b) ∧
+     (∀ (H : Gr) (k : Nat), k < H.n → ∀ a b,
+        sigOf (split H k p) a b = sigOf H (collapse H.n k a) (collapse H.n k b)) ∧
+     (∀ K : Gr, (∀ k, k < K.n → 0 < K.w k) → (∀ i j, i < K.n → j < K.n → aplus K i j = 1) →
+        ∀ i j, i < K.n → j < K.n → sigOf K i j = 1)) :=
+  ⟨fun _ _ h a b ha hb => twinness_congr h a b ha hb,
+    fun H k hk a b => by simpa using eval_split H k p hk M.nsiTwinness [a, b],
+    fun K hw hall i j hi hj => twinness_complete K hw hall i j hi hj⟩
+
+
+/-- the sub-network the wrapper builds for a component of an undirected network is connected
+(walks reverse, concatenate and stay inside the component) -/
+theorem component_subnetwork_connected (G : Gr) (hsym : ∀ i j, G.adj i j = G.adj j i) (a : Nat)
+    (ha : a < G.n) : Connected (subGr G (compNodes G a)) :=
+  subGr_comp_connected G hsym a ha
+
+/-- **`nsi_arenas_betweenness(stopping_mode="neighbors")` through the component loop, on every
+undirected loop-free network with positive weights, connected or not — no regularity
+hypothesis**: the systems of the new component are regular by `arenas_systems_regular`, because
+its sub-network is connected -/
+theorem nsi_arenas_betweenness_wrapper_split_neighbors (G : Gr) (v : Nat) (p : Rat) (hv : v < G.n)
+    (hp0 : 0 < p) (hp1 : p < 1) (hw : ∀ k, k < G.n → 0 < G.w k) (hloop : ∀ i, G.adj i i = false)
+    (hsym : ∀ i j, G.adj i j = G.adj j i) (Vof : Gr → Nat → Nat → Nat → Rat)
+    (hVcongr : ∀ H H', RangeEq H H' → ∀ i s j, i < H.n → s < H.n → j < H.n →
+      Vof H i s j = Vof H' i s j)
+    (excl : Bool) (a : Nat) (ha : a < G.n + 1)
+    (hV : ∀ i, i < (subGr G (compNodes G (collapse G.n v a))).n →
+      ArenasSolves (subGr G (compNodes G (collapse G.n v a))) (fun _ _ => 1) i
+        (Vof (subGr G (compNodes G (collapse G.n v a))) i))
+    (hV' : ∀ i, i < (subGr (split G v p) (compNodes (split G v p) a)).n →
+      ArenasSolves (subGr (split G v p) (compNodes (split G v p) a)) (fun _ _ => 1) i
+        (Vof (subGr (split G v p) (compNodes (split G v p) a)) i)) :
+    arenasAt (split G v p) (fun _ _ _ => 1) Vof excl a
+      = arenasAt G (fun _ _ _ => 1) Vof excl (collapse G.n v a) :=
+  arenasAt_split G v p hv hp0 hp1 hw hloop (fun _ _ _ => 1) Vof (fun _ _ _ _ _ _ _ => rfl)
+    (fun _ _ _ _ _ => rfl) (fun _ _ _ _ _ _ _ => rfl) hVcongr excl a ha hV hV'
+    (fun i hi => arenas_regular _
+      (subGr_weights_pos (split G v p) _ (fun x hx => compNodes_lt _ _ x hx)
+        (split_weights_pos G v p hv hp0 hp1 hw))
+      (subGr_comp_connected (split G v p) (split_adj_symm G v p hsym) a ha) _ i hi rfl
+      (fun _ _ _ => ⟨by norm_num, by norm_num⟩))
+
+/-- **… and `stopping_mode="twinness"`** (the sub-network's own `nsi_twinness`) -/
+theorem nsi_arenas_betweenness_wrapper_split_twinness (G : Gr) (v : Nat) (p : Rat) (hv : v < G.n)
+    (hp0 : 0 < p) (hp1 : p < 1) (hw : ∀ k, k < G.n → 0 < G.w k) (hloop : ∀ i, G.adj i i = false)
+    (hsym : ∀ i j, G.adj i j = G.adj j i) (Vof : Gr → Nat → Nat → Nat → Rat)
+    (hVcongr : ∀ H H', RangeEq H H' → ∀ i s j, i < H.n → s < H.n → j < H.n →
+      Vof H i s j = Vof H' i s j)
+    (excl : Bool) (a : Nat) (ha : a < G.n + 1)
+    (hV : ∀ i, i < (subGr G (compNodes G (collapse G.n v a))).n →
+      ArenasSolves (subGr G (compNodes G (collapse G.n v a)))
+        (fun x y => eval (subGr G (compNodes G (collapse G.n v a))) [x, y] M.nsiTwinness) i
+        (Vof (subGr G (compNodes G (collapse G.n v a))) i))
+    (hV' : ∀ i, i < (subGr (split G v p) (compNodes (split G v p) a)).n →
+      ArenasSolves (subGr (split G v p) (compNodes (split G v p) a))
+        (fun x y => eval (subGr (split G v p) (compNodes (split G v p) a)) [x, y] M.nsiTwinness) i
+        (Vof (subGr (split G v p) (compNodes (split G v p) a)) i)) :
+    arenasAt (split G v p) (fun H x y => eval H [x, y] M.nsiTwinness) Vof excl a
+      = arenasAt G (fun H x y => eval H [x, y] M.nsiTwinness) Vof excl (collapse G.n v a) := by
+  have hw' := subGr_weights_pos (split G v p) (compNodes (split G v p) a)
+    (fun x hx => compNodes_lt _ _ x hx) (split_weights_pos G v p hv hp0 hp1 hw)
+  have hsymA : ∀ i j, aplus (subGr (split G v p) (compNodes (split G v p) a)) i j
+      = aplus (subGr (split G v p) (compNodes (split G v p) a)) j i :=
+    aplus_symm _ (fun i j => split_adj_symm G v p hsym _ _)
+  exact arenasAt_split G v p hv hp0 hp1 hw hloop (fun H x y => eval H [x, y] M.nsiTwinness) Vof
+    (stopping_rules_admissible p).1 (stopping_rules_admissible p).2.1
+    (stopping_rules_admissible p).2.2 hVcongr excl a ha hV hV'
+    (fun i hi => arenas_regular _ hw'
+      (subGr_comp_connected (split G v p) (split_adj_symm G v p hsym) a ha) _ i hi
+      (twinness_diag _ hw' hsymA i hi) (fun r _ _ => twinness_bounds _ hw' i r hi))
+
+/-- non-vacuity: path 0–1–2–3 | link 4–5; the inner nodes of the path have non-zero values, and
+splitting node 1 leaves all values unchanged with the twin carrying node 1's -/
+def compG2 : Gr :=
+  { n := 6, adj := fun i j => (i, j) ∈ [(0, 1), (1, 0), (1, 2), (2, 1), (2, 3), (3, 2), (4, 5), (5, 4)],
+    w := fun k => [1, 2, 3, 1, 2, 1].getD k 0, la := fun _ _ _ => 0, grp := fun _ _ => false,
+    dist := fun _ _ => none }
+
+example : arenasWrapped (split compG2 1 (1/4)) false true
+      = (arenasWrapped compG2 false true).map (fun l => l ++ [l.getD 1 0]) ∧
+    arenasWrapped (split compG2 1 (1/4)) true false
+      = (arenasWrapped compG2 true false).map (fun l => l ++ [l.getD 1 0]) ∧
+    (arenasWrapped compG2 false true).isSome = true ∧
+    ((arenasWrapped compG2 false true).getD []).getD 1 0 ≠ 0 ∧
+    compList (split compG2 1 (1/4)) = [[0, 1, 2, 3, 6], [4, 5]] := by
+  decide +kernel
+
+/-! ### round 5: `nsi_eigenvector_centrality`
+
+The code (core/network.py) hands `sp_Astar = Dw^½ A⁺ Dw^½` to `eigsh(k=1, sigma=2W)`, which returns
+*some* non-zero eigenvector `u` (any sign, any scale) of the largest eigenvalue, divides it by
+`sqrt w`, multiplies by the sign of entry 0 and divides by the maximum.  Eigenvectors are in
+general irrational, so the statements are over an arbitrary linearly ordered field `K` containing
+the (rational) weights.  `astar_eigenvectors` removes the square roots: `u` is an eigenvector of
+`sp_Astar` iff `ec = u / sqrt w` is one of the n.s.i. adjacency matrix `A⁺ D_w` (`IsEig`). -/
+
+section eigen
+variable {K : Type} [Field K] [LinearOrder K] [IsStrictOrderedRing K]
+
+/-- `u` eigenvector of `DwR * sp_Aplus * DwR` ⇔ `u / sqrt w` eigenvector of `sp_Aplus * sp_diag_w`
+(`r` = any positive square roots of the weights in `K`) -/
+theorem astar_eigenvectors (G : Gr) (lam : K) (r u : Nat → K) (hr : ∀ i, i < G.n → 0 < r i)
+    (hrr : ∀ i, i < G.n → r i * r i = ((G.w i : Rat) : K)) :
+    (∀ i, i < G.n → ∑ j ∈ Finset.range G.n, r i * ((aplus G i j : Rat) : K) * r j * u j = lam * u i)
+      ↔ IsEig G lam (fun i => u i / r i) :=
+  astar_eig_iff G lam r u hr hrr
+
+/-- eigenvectors of the n.s.i. adjacency matrix pull back along the collapse map with the same
+eigenvalue (every graph, directed or not, every `p`, every eigenvalue) -/
+theorem nsi_adjacency_eigenvector_pullback (G : Gr) (v : Nat) (p : Rat) (hv : v < G.n) (lam : K)
+    (x : Nat → K) (hx : IsEig G lam x) :
+    IsEig (split G v p) lam (fun k => x (collapse G.n v k)) :=
+  eig_pullback G v p hv lam x hx
+
+/-- **Perron, domination**: with positive node weights the eigenvalue of a positive eigenvector is
+the largest eigenvalue — the one `eigsh(sigma = 2W)` selects -/
+theorem positive_eigenvector_is_top (G : Gr) (hw : ∀ j, j < G.n → 0 < G.w j) (lam : K)
+    (x : Nat → K) (hx : PosVec G.n x) (hxe : IsEig G lam x) : IsTop G lam :=
+  eig_le_of_pos G hw lam x hx hxe
+
+/-- **Perron, uniqueness**: on a connected network with positive weights the eigenspace of that
+eigenvalue is the line through the positive eigenvector -/
+theorem top_eigenvector_unique (G : Gr) (hw : ∀ j, j < G.n → 0 < G.w j) (hconn : Connected G)
+    (lam : K) (x y : Nat → K) (hx : PosVec G.n x) (hxe : IsEig G lam x) (hye : IsEig G lam y) :
+    ∃ t : K, ∀ i, i < G.n → y i = t * x i :=
+  eig_unique G hw hconn lam x y hx hxe hye
+
+/-- the split copy of a connected loop-free network is connected -/
+theorem split_is_connected (G : Gr) (v : Nat) (p : Rat) (hv : v < G.n)
+    (hloop : ∀ i, G.adj i i = false) (hconn : Connected G) : Connected (split G v p) :=
+  split_connected G v p hv hloop hconn
+
+/-- what the code returns for a connected network that has a positive eigenvector `x`: for
+**every** non-zero eigenvector `y` of the largest eigenvalue (whatever sign and scale `eigsh`
+chose), the normalised output is `x / max x` -/
+theorem nsi_eigenvector_centrality_value (G : Gr) (hn : 0 < G.n) (hw : ∀ j, j < G.n → 0 < G.w j)
+    (hconn : Connected G) (lam : K) (x : Nat → K) (hx : PosVec G.n x) (hxe : IsEig G lam x)
+    (mu : K) (y : Nat → K) (hye : IsEig G mu y) (hy : NonZero G.n y) (hmu : IsTop G mu)
+    (e : Nat → K) (he : IsEcOutput G.n y e) :
+    mu = lam ∧ ∃ mx : K, (∀ i, i < G.n → x i ≤ mx) ∧ (∃ i, i < G.n ∧ x i = mx) ∧
+      ∀ i, i < G.n → e i = x i / mx := by
+  have h1 : mu ≤ lam := eig_le_of_pos G hw lam x hx hxe mu y hye hy
+  have h2 : lam ≤ mu := hmu lam x hxe ⟨0, hn, ne_of_gt (hx 0 hn)⟩
+  have hml : mu = lam := le_antisymm h1 h2
+  subst hml
+  obtain ⟨t, ht⟩ := eig_unique G hw hconn mu x y hx hxe hye
+  have ht0 : t ≠ 0 := by
+    rintro rfl
+    obtain ⟨i, hi, hyi⟩ := hy
+    exact hyi (by rw [ht i hi, zero_mul])
+  exact ⟨rfl, ecOutput_of_multiple G.n hn x y e t ht0 hx ht he⟩
+
+/-- **Node-splitting invariance of `nsi_eigenvector_centrality`.**  For every connected loop-free
+network with positive node weights that has a positive eigenvector (Perron–Frobenius guarantees one
+over ℝ; its existence is the only assumption, and only for the *original* network), every node
+`v`, every `0 < p < 1`: whatever non-zero eigenvectors `y`, `y'` of the largest eigenvalues
+`eigsh` returns for the network and for its split copy, the normalised outputs `e`, `e'` agree on
+untouched nodes and both twins carry `v`'s value.  The largest eigenvalue is invariant as well. -/
+theorem nsi_eigenvector_centrality_split (G : Gr) (v : Nat) (p : Rat) (hv : v < G.n)
+    (hp0 : 0 < p) (hp1 : p < 1) (hloop : ∀ i, G.adj i i = false)
+    (hw : ∀ j, j < G.n → 0 < G.w j) (hconn : Connected G)
+    (lam : K) (x : Nat → K) (hx : PosVec G.n x) (hxe : IsEig G lam x)
+    (mu : K) (y : Nat → K) (hye : IsEig G mu y) (hy : NonZero G.n y) (hmu : IsTop G mu)
+    (mu' : K) (y' : Nat → K) (hye' : IsEig (split G v p) mu' y') (hy' : NonZero (G.n + 1) y')
+    (hmu' : IsTop (split G v p) mu')
+    (e e' : Nat → K) (he : IsEcOutput G.n y e) (he' : IsEcOutput (G.n + 1) y' e') :
+    mu' = mu ∧ ∀ a, a < G.n + 1 → e' a = e (collapse G.n v a) := by
+  have hn : 0 < G.n := by omega
+  obtain ⟨h1, mx, hle, ⟨i1, hi1, hmx⟩, hev⟩ :=
+    nsi_eigenvector_centrality_value G hn hw hconn lam x hx hxe mu y hye hy hmu e he
+  have hx' : PosVec (split G v p).n (fun k => x (collapse G.n v k)) :=
+    fun k hk => hx _ (collapse_lt_n _ _ _ hv hk)
+  obtain ⟨h1', mx', hle', ⟨i1', hi1', hmx'⟩, hev'⟩ :=
+    nsi_eigenvector_centrality_value (split G v p) (Nat.succ_pos _)
+      (split_weights_pos G v p hv hp0 hp1 hw) (split_connected G v p hv hloop hconn) lam _ hx'
+      (eig_pullback G v p hv lam x hxe) mu' y' hye' hy' hmu' e' he'
+  have hmm : mx' = mx := by
+    apply le_antisymm
+    · rw [← hmx']; exact hle _ (collapse_lt_n _ _ _ hv hi1')
+    · rw [← hmx]
+      have := hle' i1 (Nat.lt_succ_of_lt hi1)
+      simpa [collapse_lt _ _ _ hi1] using this
+  refine ⟨by rw [h1', h1], fun a ha => ?_⟩
+  rw [hev' a ha, hev _ (collapse_lt_n _ _ _ hv ha), hmm]
+
+end eigen
+
+
+/-- the driver's flag `conn` decides the hypothesis `Connected` (by
+`bfs_distances_are_shortest_paths`) -/
+theorem connected_iff_bfs (G : Gr) : isConnected G = true ↔ Connected G := by
+  unfold isConnected Connected
+  simp only [List.all_eq_true, List.mem_range]
+  constructor
+  · intro h i j hi hj
+    have hd := bfsDist_isDist G i j hi
+    have hs := h i hi j hj
+    cases hb : bfsDist G i j with
+    | none => rw [hb] at hs; simp at hs
+    | some d => rw [hb] at hd; exact ⟨d, hd.1⟩
+  · intro h i hi j hj
+    have hd := bfsDist_isDist G i j hi
+    cases hb : bfsDist G i j with
+    | none =>
+      rw [hb] at hd
+      obtain ⟨k, wk⟩ := h i j hi hj
+      exact absurd wk (hd k)
+    | some d => simp
+
+
+/-- the driver's exact residual `eigResid` (cross-multiplied, `s` = any index with `x s ≠ 0`)
+vanishes only for eigenvectors: the harness bounds it for the vector the implementation returns -/
+theorem eig_of_resid_zero (G : Gr) (x : Nat → Rat) (s : Nat) (hs : x s ≠ 0)
+    (h : ∀ i, i < G.n → nsiAdjApply G x i * x s - nsiAdjApply G x s * x i = 0) :
+    IsEig (K := Rat) G (nsiAdjApply G x s / x s) x := by
+  intro i hi
+  rw [adjK_rat]
+  have := h i hi
+  field_simp
+  linarith
+
+/-- non-vacuity: the path 0–1–2 with weights 3, 2, 3 is connected and has the positive eigenvector
+`(1, 3/2, 1)` for the eigenvalue 6; the code's normalisation gives `(2/3, 1, 2/3)` on the network
+and `(2/3, 1, 2/3, 1)` on the copy with node 1 split — from any multiple, e.g. `−2·x` -/
+def eigG : Gr :=
+  { n := 3, adj := fun i j => (i, j) ∈ [(0, 1), (1, 0), (1, 2), (2, 1)],
+    w := fun k => [3, 2, 3].getD k 0, la := fun _ _ _ => 0, grp := fun _ _ => false,
+    dist := fun _ _ => none }
+
+def eigX (k : Nat) : Rat := [1, 3/2, 1].getD k 0
+
+example : (List.range 3).all (fun i => nsiAdjApply eigG eigX i == 6 * eigX i) = true ∧
+    (List.range 4).all (fun a => nsiAdjApply (split eigG 1 (1/4)) (fun k => eigX (collapse 3 1 k)) a
+      == 6 * eigX (collapse 3 1 a)) = true ∧
+    (List.range 3).map (ecNorm 3 fun k => -2 * eigX k) = [2/3, 1, 2/3] ∧
+    (List.range 4).map (ecNorm 4 fun k => 5 * eigX (collapse 3 1 k)) = [2/3, 1, 2/3, 1] ∧
+    eigResid eigG eigX = [0, 0, 0] := by
+  decide +kernel
+
+example : IsEig (K := Rat) eigG 6 eigX ∧ PosVec 3 eigX := by
+  refine ⟨fun i hi => ?_, fun i hi => ?_⟩
+  · rw [adjK_rat]
+    have : i = 0 ∨ i = 1 ∨ i = 2 := by
+      have : i < 3 := hi
+      omega
+    rcases this with rfl | rfl | rfl <;> decide +kernel
+  · have : i = 0 ∨ i = 1 ∨ i = 2 := by omega
+    rcases this with rfl | rfl | rfl <;> decide +kernel
+
+
+example : Connected eigG ∧ (∀ i, eigG.adj i i = false) ∧ (∀ j, j < eigG.n → 0 < eigG.w j) := by
+  refine ⟨fun i j hi hj => ?_, fun i => by simp [eigG]; omega, fun j hj => ?_⟩
+  · have hi' : i = 0 ∨ i = 1 ∨ i = 2 := by
+      have : i < 3 := hi
+      omega
+    have hj' : j = 0 ∨ j = 1 ∨ j = 2 := by
+      have : j < 3 := hj
+      omega
+    rcases hi' with rfl | rfl | rfl <;> rcases hj' with rfl | rfl | rfl <;>
+      first
+      | exact ⟨0, Walk.nil _ (by decide)⟩
+      | exact ⟨1, Walk.cons _ _ _ _ (by decide) (by decide) (Walk.nil _ (by decide))⟩
+      | exact ⟨2, Walk.cons _ 1 _ _ (by decide) (by decide)
+          (Walk.cons _ _ _ _ (by decide) (by decide) (Walk.nil _ (by decide)))⟩
+  · have : j = 0 ∨ j = 1 ∨ j = 2 := by
+      have : j < 3 := hj
+      omega
+    rcases this with rfl | rfl | rfl <;> decide +kernel
 
 /-! ### the measures of the library are expressions: invariance of each, by name -/
 
